@@ -193,6 +193,9 @@ _c06_quick = [
     run("kfifo", "kb", c=0, r=2, opt={"T": 1, "m": 6, "k": 2, "segs": 2, "prefill": 0}), run("kfifo", "kb", c=0, r=2, opt={"T": 1, "m": 6, "k": 2, "segs": 3, "prefill": 0}),
     run("kfifo", "kf_hp", c=1, r=1, opt={"k": 2}), run("kfifo", "kf_ebr", c=1, r=1, opt={"k": 2}), run("kfifo", "kf_stamp", c=1, r=0, opt={"k": 2}),
     run("kfifo", "kf_hp", c=2, opt={"k": 1}), run("kfifo", "kf_hp", c=0, r=2, opt={"T": 1, "m": 6, "k": 2, "prefill": 0}),
+    # k that is not a power of two (seed C06c: slot scan with a mask instead of a modulo reaches only some of the k slots)
+    run("kfifo", "kb", c=0, r=1, opt={"T": 1, "m": 8, "k": 3, "segs": 3, "prefill": 0}, weight=0.5), run("kfifo", "kb", c=0, r=1, opt={"T": 1, "m": 8, "k": 5, "segs": 2, "prefill": 0}, weight=0.5),
+    run("kfifo", "kb", c=0, r=2, opt={"T": 1, "m": 8, "k": 3, "segs": 2, "prefill": 0}, weight=0.5), run("kfifo", "kf_hp", c=0, r=1, opt={"T": 1, "m": 8, "k": 3, "prefill": 0}, weight=0.5),
     run("kfifo", "kb_boundary", c=0, horizon=8000000, wall=120, opt={"segs": 65535, "fill": 65535, "ops": 70000}),
     run("kfifo", "kb_boundary", c=0, horizon=8000000, wall=120, opt={"segs": 65536, "fill": 65536, "ops": 70000}),
     run("kfifo", "kb_boundary", c=0, horizon=8000000, wall=120, opt={"segs": 65537, "fill": 65537, "ops": 70000}),
